@@ -13,9 +13,10 @@ cd "$wt" || exit 2
 git checkout -q -- . ; git clean -fdq
 scratch=$(mktemp -d)
 run_demo() { # $1 label
-  cp "$demo" "$wt/$pkg/zz_demo_test.go"
+  n=0
+  for f in $(echo "$demo" | tr ',' ' '); do n=$((n+1)); cp "$f" "$wt/$pkg/zz_demo${n}_test.go"; done
   (cd "$wt/$pkg" && go test -vet=off -c -o "$scratch/demo.test" . >>"$log" 2>&1)
-  rm -f "$wt/$pkg/zz_demo_test.go"
+  rm -f "$wt/$pkg"/zz_demo*_test.go
   (cd "$scratch" && timeout 900 ./demo.test -test.count=1 -test.run "$re" >"$scratch/demo.out" 2>&1); rc=$?
   echo "DEMO[$1] exit=$rc $(tail -1 "$scratch/demo.out")" >>"$log"
   return $rc
